@@ -136,22 +136,13 @@ def run(ctx):
     for p in bin_.adts:
         if p.endswith("::Cli") or p == "Cli":
             cli_adt = p
-    fi = guards.FnInfo.of(hi)
-    d = fi.defs
     seen_setters = {}
     build_blocks = [bi for bi, t in hi.calls() if callee_name(t) == "grex::RegExpBuilder::build"]
-    for bi, t in hi.calls():
-        n = callee_name(t) or ""
-        if not n.startswith("grex::RegExpBuilder::") or n.endswith("::build") or n.endswith("::from"):
-            continue
-        setter = n.rsplit("::", 1)[1]
-        if setter not in api["setters"]:
-            ctx.violation("CLI-1", (hi.path, n), "CLI calls undocumented builder method %s" % setter, hi.loc(t.get("line")))
-            continue
-        gs = [g for g in guards.guards(hi, bi) if not g["loop"]]
-        fguards = []
-        other = []
-        for g in gs:
+
+    def classify_guards(hb, bi, in_helper):
+        fi = guards.FnInfo.of(hb)
+        fguards, other = [], []
+        for g in [g for g in guards.guards(hb, bi) if not g["loop"]]:
             f = cli_field_of(g["origin"], cli_adt)
             if f is not None:
                 fguards.append((f, guards.edge_truth(g)))
@@ -162,35 +153,63 @@ def run(ctx):
                 # (early error return, e.g. "no test cases")
                 reads_cli = any(x[0] == "field" and x[3] == cli_adt for x in local.walk(g["origin"]))
                 alt = [x for x in fi.cfg.succ[g["block"]] if x != g["succ"]]
-                reaches = any(bb in fi.cfg.reachable_from(x) or bb == x for x in alt for bb in build_blocks)
+                reaches = in_helper or any(bb in fi.cfg.reachable_from(x) or bb == x for x in alt for bb in build_blocks)
                 if reads_cli or reaches:
                     other.append(local.show(g["origin"]))
-        spec_s = api["setters"][setter]
-        has_param = bool(spec_s.get("param"))
-        is_threshold = "panic_if_zero" in spec_s
-        want_flags = sorted(fl for fl, s in api["cli_flags"].items() if s == setter)
-        want_param_flags = sorted(fl for fl, s in api["cli_flags"].items() if s == setter + "#param")
-        got_flags = sorted(fields.get(f, {}).get("flag") or "?" + f for f, tr in fguards if tr is True)
-        bad = []
-        if other:
-            bad.append("extra guard(s) %s" % other)
-        if any(tr is not True for _, tr in fguards):
-            bad.append("called when a flag is *absent*")
-        if got_flags != want_flags:
-            bad.append("guarded by flag(s) %s, documented flag(s) %s" % (["--" + x for x in got_flags], ["--" + x for x in want_flags]))
-        if has_param:
-            ao = d.operand(t["args"][1]) if len(t["args"]) > 1 else None
-            af = cli_field_of(ao, cli_adt) if ao else None
-            aflag = fields.get(af, {}).get("flag") if af else None
-            if [aflag] != want_param_flags:
-                bad.append("argument comes from %s, documented: the value of --%s" % ("--%s" % aflag if aflag else local.show(ao) if ao else "nothing", want_param_flags[0] if want_param_flags else "?"))
-            if is_threshold and af and fields[af].get("value_parser") is None:
-                bad.append("threshold flag --%s has no value parser" % aflag)
-        if bad:
-            ctx.violation("CLI-1", (hi.path, setter), "; ".join(bad), hi.loc(t.get("line")))
-        else:
-            ctx.ok("CLI-1", "%s->%s" % (hi.path, setter), {"flags": want_flags or "unconditional", "param": want_param_flags}, hi.loc(t.get("line")))
-        seen_setters[setter] = seen_setters.get(setter, 0) + 1
+        return fguards, other
+
+    # the bodies that configure the builder: the function calling build(), and bin functions it hands the builder to (`configure(&mut builder, cli)`), with the
+    # guards of that hand-over added to the guards of every setter call inside
+    work = [(hi, [], [], 0)]
+    scanned = set()
+    while work:
+        hb, pre_f, pre_o, depth = work.pop(0)
+        if hb.path in scanned:
+            continue
+        scanned.add(hb.path)
+        fi = guards.FnInfo.of(hb)
+        d = fi.defs
+        for bi, t in hb.calls():
+            n = callee_name(t) or ""
+            helper = bin_.body(n)
+            if helper is not None and depth < 2 and helper.kind in ("fn", "assoc_fn") and any("RegExpBuilder" in ty for ty in helper.sig_inputs):
+                hf, ho = classify_guards(hb, bi, depth > 0)
+                work.append((helper, pre_f + hf, pre_o + ho, depth + 1))
+                continue
+            if not n.startswith("grex::RegExpBuilder::") or n.endswith("::build") or n.endswith("::from"):
+                continue
+            setter = n.rsplit("::", 1)[1]
+            if setter not in api["setters"]:
+                ctx.violation("CLI-1", (hb.path, n), "CLI calls undocumented builder method %s" % setter, hb.loc(t.get("line")))
+                continue
+            fguards, other = classify_guards(hb, bi, depth > 0)
+            fguards, other = pre_f + fguards, pre_o + other
+            spec_s = api["setters"][setter]
+            has_param = bool(spec_s.get("param"))
+            is_threshold = "panic_if_zero" in spec_s
+            want_flags = sorted(fl for fl, s in api["cli_flags"].items() if s == setter)
+            want_param_flags = sorted(fl for fl, s in api["cli_flags"].items() if s == setter + "#param")
+            got_flags = sorted(fields.get(f, {}).get("flag") or "?" + f for f, tr in fguards if tr is True)
+            bad = []
+            if other:
+                bad.append("extra guard(s) %s" % other)
+            if any(tr is not True for _, tr in fguards):
+                bad.append("called when a flag is *absent*")
+            if got_flags != want_flags:
+                bad.append("guarded by flag(s) %s, documented flag(s) %s" % (["--" + x for x in got_flags], ["--" + x for x in want_flags]))
+            if has_param:
+                ao = d.operand(t["args"][1]) if len(t["args"]) > 1 else None
+                af = cli_field_of(ao, cli_adt) if ao else None
+                aflag = fields.get(af, {}).get("flag") if af else None
+                if [aflag] != want_param_flags:
+                    bad.append("argument comes from %s, documented: the value of --%s" % ("--%s" % aflag if aflag else local.show(ao) if ao else "nothing", want_param_flags[0] if want_param_flags else "?"))
+                if is_threshold and af and fields[af].get("value_parser") is None:
+                    bad.append("threshold flag --%s has no value parser" % aflag)
+            if bad:
+                ctx.violation("CLI-1", (hb.path, setter), "; ".join(bad), hb.loc(t.get("line")))
+            else:
+                ctx.ok("CLI-1", "%s->%s" % (hb.path, setter), {"flags": want_flags or "unconditional", "param": want_param_flags}, hb.loc(t.get("line")))
+            seen_setters[setter] = seen_setters.get(setter, 0) + 1
     missing = [s for s in api["setters"] if s not in seen_setters]
     for s in missing:
         ctx.violation("CLI-1", (hi.path, "missing " + s), "no call of RegExpBuilder::%s: its flag(s) %s have no effect" % (
@@ -198,6 +217,8 @@ def run(ctx):
     ctx.floor("CLI-1", "setter calls in the CLI", sum(seen_setters.values()), 17)
 
     # ---- CLI-2
+    fi = guards.FnInfo.of(hi)
+    d = fi.defs
     prints = [(bi, t) for bi, t in hi.calls() if (callee_name(t) or "") == "std::io::_print"]
     if ctx.floor("CLI-2", "stdout writes in " + hi.path, len(prints), 1):
         for bi, t in prints:
